@@ -1,0 +1,26 @@
+//go:build verif
+// +build verif
+
+package crdt
+
+import "sync/atomic"
+
+// Verification hook (build tag "verif" only): the batch worker reports its
+// linearization points (item batched, commit attempted) to an observer
+// installed by the verification harness. Add-only; see verif_off.go.
+
+var verifHookFn atomic.Value // func(ev string, kv ...interface{})
+
+// SetVerifHook installs (or, with nil, removes) the observer.
+func SetVerifHook(f func(ev string, kv ...interface{})) {
+	if f == nil {
+		f = func(string, ...interface{}) {}
+	}
+	verifHookFn.Store(f)
+}
+
+func verifHook(ev string, kv ...interface{}) {
+	if f, ok := verifHookFn.Load().(func(ev string, kv ...interface{})); ok {
+		f(ev, kv...)
+	}
+}
